@@ -19,6 +19,8 @@
  *             audit failures are also written into that stream ("!!FAIL ..."), i.e. at the place of the
  *             output where they happened
  *   live      no audits, only live-object counts (churn families)
+ *   live:<k>  same, and prints  LIVE <file> n=<samples> <c1>,<c2>,...  = the number of live objects at every
+ *             k-th return into main (leak family: main calls each case k times in a loop of its own)
  *   one forked child per module; prints per module
  *     RES <file> rc=<VmResult> steps=<n> audits=<n> maxreach=<n> peak_live=<n> final_live=<n> fuel_out=<0|1>
  *     FAIL <file> step=<n> fn=<name> ip=<n> kind=<dangling|undercount|typeconf> <detail>     (first 5 per module)
@@ -208,9 +210,28 @@ static void audit(VmState *vm) {
     g_audits++;
 }
 
+/* live:<k> mode: number of live objects at every k-th return into main (main runs one loop of k calls per case:
+ * the sample after the last call of a loop is what that case left behind) */
+static unsigned long g_ret_every = 0, g_rets = 0;
+static uint32_t g_main_fn = UINT32_MAX, g_prev_fn = UINT32_MAX;
+static int g_seen_main = 0;
+static unsigned long *g_samples = NULL;
+static size_t g_nsamples = 0, g_cap_samples = 0;
+
 static int step_hook(VmState *vm) {
     g_step++;
     if (vm->heap.stats.num_objects > g_peak) g_peak = vm->heap.stats.num_objects;
+    if (g_ret_every) {
+        uint32_t cf = vm->current_fn;
+        if (cf == g_main_fn && g_prev_fn != g_main_fn) {
+            if (g_seen_main && ++g_rets % g_ret_every == 0) {
+                if (g_nsamples == g_cap_samples) { g_cap_samples = g_cap_samples ? g_cap_samples * 2 : 256; g_samples = realloc(g_samples, g_cap_samples * sizeof *g_samples); }
+                g_samples[g_nsamples++] = vm->heap.stats.num_objects;
+            }
+            g_seen_main = 1;
+        }
+        g_prev_fn = cf;
+    }
     if (g_fuel > 0 && (long)g_step > g_fuel) { g_fuel_out = 1; return 0; }
     if (g_audit_every && (g_step % (unsigned long)g_audit_every) == 0) audit(vm);
     return 1;
@@ -240,6 +261,10 @@ static int run_one(const char *file) {
     vm->output = devnull;
     if (g_keep_output) g_out = devnull;
     g_vm = vm;
+    for (uint32_t i = 0; i < m->function_count; i++) {
+        uint32_t ni = m->functions[i].name_idx;
+        if (ni < m->string_count && !strcmp(m->strings[ni], "main")) g_main_fn = i;
+    }
     nl_verif_vm_step = step_hook;
     VmResult r = vm_execute(vm);
     nl_verif_vm_step = NULL;
@@ -249,6 +274,11 @@ static int run_one(const char *file) {
     fflush(devnull);
     printf("RES %s rc=%d steps=%lu audits=%lu maxreach=%lu peak_live=%lu final_live=%lu fuel_out=%d fails=%lu\n",
            file, (int)r, g_step, g_audits, g_maxreach, g_peak, final_live, g_fuel_out, g_fails);
+    if (g_ret_every) {
+        printf("LIVE %s n=%zu", file, g_nsamples);
+        for (size_t i = 0; i < g_nsamples; i++) printf("%c%lu", i ? ',' : ' ', g_samples[i]);
+        printf("\n");
+    }
     fflush(stdout);
     vm_destroy(vm);      /* releases stack and globals: a double release is an asan report here */
     free(vm);
@@ -260,8 +290,9 @@ static int run_one(const char *file) {
 
 int main(int argc, char **argv) {
     g_argc = argc; g_argv = argv;
+    if (argc >= 4 && !strncmp(argv[1], "live:", 5)) { g_ret_every = strtoul(argv[1] + 5, NULL, 10); argv[1] = "live"; }
     if (argc < 4 || (strcmp(argv[1], "audit") && strcmp(argv[1], "auditout") && strcmp(argv[1], "live"))) {
-        fprintf(stderr, "usage: heap_probe audit|auditout|live <fuel> <file.nvm>...\n"); return 3;
+        fprintf(stderr, "usage: heap_probe audit|auditout|live|live:<k> <fuel> <file.nvm>...\n"); return 3;
     }
     if (!strcmp(argv[1], "auditout")) g_keep_output = 1;
     if (!strcmp(argv[1], "live")) g_audit_every = 0;     /* only count live objects (churn family) */
